@@ -30,7 +30,7 @@ from .asyncenv import MemDatagramListener, backend, loop_context
 NONTRIVIAL_RULE = "a datagram arrived while its client's generator was active (queued), a generator respawn, a parse error or a timeout occurred"
 STUBS = ["DetLoop; MemDatagramListener (real DatagramListenerProtocol fed by the scenario; fake asyncio datagram transport)", "RawFixed(1) harness serializer (payload 0x21 = malformed)"]
 ASSUMPTIONS = ["datagram reception order is the order in which the scenario injects them (the listener's responsibility per the code's own comment)"]
-BOUNDS = {"quick": "<= 3 datagrams from A and 2 from B, K <= 5 events, handler shapes listed in the shards", "thorough": "4+3 datagrams, K <= 7"}
+BOUNDS = {"quick": "<= 3 datagrams from A and 2 from B (up to 3 of them received before serve() starts), K <= 4 events, handler shapes listed in the shards (through build_lowlevel_datagram_server_handler and as raw low-level generators)", "thorough": "4+3 datagrams, K <= 7"}
 OUTSIDE = "real asyncio datagram transport, kernel drops, queues longer than a few datagrams (e.g. an artificial bound of 256 entries is not reachable)"
 
 
